@@ -160,7 +160,11 @@ LEVEL_NOTE = ("Only compared (not proved): the outcome class ok / err / panic cl
               "The near-overflow band of isize exponents is accepted either way (ok or overflow panic) and counted.  Trusted: Coq kernel, "
               "extraction, the driver dictionary, the harness, the runner's watchdog.")
 TECHNIQUE = "Coq proof of panic-set tables, of fuel sufficiency (series loops with rounding, Lehmer incl. the extended loop, Newton, D&C recursions), of slice-index legality of the text parsers on all UTF-8, of the totality of the serde visitors on every event and of Repr::new with the isize exponent + regenerated parser / serde tables + watchdog-supervised correspondence run over the public surface (thorough tier: measured time against proved cost bounds)"
-RULE = ("cases = two systematic sweeps on every run - (a) every ownership form vv vr rv rr av ar x word-count class (1/1, 1/2, 2/2 words, "
+RULE = ("cases = systematic sweeps on every run - (0) operand lengths T-1, T, T+1, around 2T and T/2 words for every size threshold T of "
+        "coq/gen/Params.v (regenerated from the tree under check: 24 / 192 multiplication, 30 squaring, 32 division, 16 / 256 radix chunks, "
+        "3 / 16 recursion minima, 1024 chunk length) x sqr, mul of EQUAL operands (by value and by reference), mul of different balanced / "
+        "unbalanced operands, cubic, pow 2 / 3 / 4 / 5 / 8 with an intermediate of exactly that length, div / rem / divrem, gcd / gcd_ext, "
+        "sqrt / sqrt_rem, printing and parsing (never truncated); (a) every ownership form vv vr rv rr av ar x word-count class (1/1, 1/2, 2/2 words, "
         "equal length differing in the low / the top word, equal, either operand longer, large against 1 or 2 words) of every violated "
         "documented precondition of the binary operators and methods of UBig, IBig, mixed UBig/IBig, FBig, RBig, Relaxed; (b) every parser "
         "configuration (14 integer / rational entry points x radix, FBig and Repr in 6 bases) x every character position of well-formed "
@@ -1164,6 +1168,122 @@ def gen_timing(rng, out):
         out.append("T.u.in_radix_fmt %s %x" % (hx(big(rng.choice([1 << 14, 1 << 16]))), rng.choice([3, 10, 36])))
 
 
+# ------------------------------------------------------------------------------------------------
+# operand lengths exactly at every size threshold of the sources (coq/gen/Params.v, regenerated from the tree under check
+# before the cases are generated): an edited threshold moves the sweep
+# ------------------------------------------------------------------------------------------------
+PARAMS_FALLBACK = {"mul_threshold_simple": 24, "mul_threshold_karatsuba": 192, "karatsuba_min_len": 3, "toom3_min_len": 16, "mul_simple_chunk_len": 1024,
+                   "sqr_max_len_simple": 30, "div_threshold_simple": 32, "fmt_chunk_len": 16, "parse_chunk_len": 256}
+
+
+if hasattr(sys, "set_int_max_str_digits"):
+    sys.set_int_max_str_digits(0)          # decimal texts of 600-word numbers for the parsers
+
+
+def source_thresholds():
+    import re
+    vals = {}
+    try:
+        with open(os.path.join(core.COQ, "gen", "Params.v")) as f:
+            for m in re.finditer(r"Definition\s+(\w+)\s*:\s*Z\s*:=\s*(\d+)\s*\.", f.read()):
+                vals[m.group(1)] = int(m.group(2))
+    except OSError:
+        pass
+    return vals or dict(PARAMS_FALLBACK)
+
+
+def threshold_lengths(tier):
+    """word counts T-1, T, T+1 for every threshold T, and around 2T and T/2 (squarings, pow intermediates, 2n-by-n divisions,
+    the halves of the Karatsuba / Toom recursion); the largest thresholds keep only T-1, T, T+1"""
+    ls = set()
+    for t in source_thresholds().values():
+        if t < 1 or t > 4096:
+            continue
+        cand = [t - 1, t, t + 1]
+        if t <= (512 if tier == "quick" else 2048):
+            cand += [2 * t - 1, 2 * t, 2 * t + 1, t // 2 - 1, t // 2, t // 2 + 1, (t + 1) // 2]
+        ls.update(c for c in cand if 1 <= c <= 4100)
+    return sorted(ls)
+
+
+def full_mag(rng, nwords):
+    """exactly nwords words with the top bit set (its square has exactly 2 * nwords words)"""
+    return (1 << (64 * nwords - 1)) | rng.bits(64 * nwords - 1)
+
+
+def threshold_sweep(rng, tier):
+    """mul / sqr / cubic / pow / div / rem / gcd / gcd_ext / sqrt / printing / parsing with operand lengths exactly at every size
+    threshold of the sources and their neighbours, for EQUAL operands (squaring shortcut) as well as different ones; every panic
+    outside the documented table is a violation (always part of a run, never truncated)"""
+    out = []
+    for n in threshold_lengths(tier):
+        a, b = full_mag(rng, n), gen_mag(rng, n)
+        if b == a:
+            b ^= 1
+        ha, hb = hx(a), hx(b)
+        out.append("u.sqr %s" % ha)
+        out.append("u.mul %s %s" % (ha, ha))                     # x * y with y == x
+        out.append("u.mul@rr %s %s" % (ha, ha))                  # &x * &x
+        out.append("u.mul %s %s" % (ha, hb))                     # balanced, different
+        out.append("i.mul %s %s" % (hx(-a), hb))
+        out.append("u.mul %s %s" % (hx(full_mag(rng, n + rng.choice([1, 2, n // 2 + 1, n]))), hb))   # unbalanced: chunks of n words
+        out.append("u.pow %s 2" % ha)
+        if n <= 1100:
+            out.append("u.cubic %s" % ha)
+            out.append("u.pow %s 3" % hb)
+        if n % 2 == 0:
+            h = full_mag(rng, n // 2)
+            out.append("u.pow %s 4" % hx(h))                     # the second squaring has exactly n words
+            out.append("u.pow %s 5" % hx(h))
+        if n % 4 == 0 and n <= 1100:
+            out.append("u.pow %s 8" % hx(full_mag(rng, n // 4)))
+        big = full_mag(rng, 2 * n)
+        out.append("u.divrem %s %s" % (hx(big), hb))             # 2n by n
+        out.append("u.div %s %s" % (hx(full_mag(rng, n + 1)), ha))
+        out.append("u.rem %s %s" % (ha, hx(full_mag(rng, max(1, n // 2)))))
+        out.append("u.%s %s %s" % (rng.choice(["gcd", "gcd_ext"]), ha, hb))
+        out.append("u.gcd_ext %s %s" % (hx(big), hb))
+        out.append("u.sqrt %s" % ha)
+        out.append("u.sqrt_rem %s" % hx(big))
+        if n <= 600:
+            out.append("u.fmt %s" % hb)
+            out.append("u.in_radix_fmt %s %x" % (ha, rng.choice([3, 10, 36])))
+            out.append("p.ubig %s" % sx(str(b)))
+            out.append("p.ubig_radix %x %s" % (16, sx("%x" % a)))
+    return out
+
+
+def gen_threshold(rng, tier, out):
+    """random member of the threshold family (signs, forms, lengths off by a few words)"""
+    ls = threshold_lengths(tier)
+    n = max(1, rng.choice(ls) + rng.choice([0, 0, 0, 1, -1, 2, -2]))
+    if n > 1100:
+        n = rng.choice([l for l in ls if l <= 1100])
+    a = full_mag(rng, n) if rng.chance(1, 2) else gen_mag(rng, n)
+    k = rng.below(8)
+    if k == 0:
+        out.append("%s.sqr %s" % (rng.choice("ui"), hx(a)))
+    elif k == 1:
+        out.append("u.mul@%s %s %s" % (rng.choice(FORMS6), hx(a), hx(a)))
+    elif k == 2:
+        out.append("i.mul@%s %s %s" % (rng.choice(FORMS6), hx(-a if rng.chance(1, 2) else a), hx(a if rng.chance(1, 2) else gen_mag(rng, n))))
+    elif k == 3:
+        e = rng.choice([2, 3, 4, 5, 6, 8])
+        m = max(1, n // rng.choice([1, 2, 2, 4]))
+        if m * e > 2400:
+            e = 2
+        out.append("%s.pow %s %x" % (rng.choice("ui"), hx(full_mag(rng, m)), e))
+    elif k == 4:
+        out.append("u.cubic %s" % hx(a))
+    elif k == 5:
+        out.append("u.%s %s %s" % (rng.choice(["divrem", "div", "rem", "gcd", "gcd_ext"]), hx(full_mag(rng, n + rng.choice([0, 1, n]))), hx(a)))
+    elif k == 6:
+        out.append("u.%s %s" % (rng.choice(["sqrt", "sqrt_rem", "cbrt"]), hx(a)))
+    else:
+        m = min(n, 300)
+        out.append(rng.choice(["u.fmt %s" % hx(gen_mag(rng, m)), "p.ubig %s" % sx(str(gen_mag(rng, m))), "u.in_radix_fmt %s a" % hx(gen_mag(rng, m))]))
+
+
 def gen_parse(rng, tier, out):
     if rng.chance(1, 3):
         return gen_parse_inject(rng, out)
@@ -1188,6 +1308,8 @@ def gen_parse(rng, tier, out):
 
 def gen_cases(rng, tier, n):
     # the two systematic sweeps come first (their word values and character widths depend on the seed, the classes do not)
+    first = threshold_sweep(rng.fork("threshold"), tier)         # never truncated
+    n = max(n - len(first), n // 2)
     out = (repr_new_sweep(rng.fork("reprnew")) + struct_sweep(rng.fork("struct")) + json_sweep(rng.fork("json")) +
            growth_sweep(rng.fork("growth")) + tiny_sweep(rng.fork("tiny")) + forms_sweep(rng.fork("forms")) + parse_sweep(rng.fork("parse"), tier))
     if len(out) > n // 2:
@@ -1206,8 +1328,10 @@ def gen_cases(rng, tier, n):
             gen_growth(rng, out)
         elif k < 10:
             gen_float_tiny(rng, out)
-        elif k < 12:
+        elif k < 11:
             gen_lehmer(rng, out)
+        elif k < 12:
+            gen_threshold(rng, tier, out)
         elif k < 16:
             gen_deser(rng, out)
         elif k < 39:
@@ -1228,4 +1352,4 @@ def gen_cases(rng, tier, n):
                 hangs += 1
                 if hangs > (12 if tier == "quick" else 60):
                     out.pop()
-    return out[:n]
+    return first + out[:n]
